@@ -5,6 +5,7 @@ import (
 	"reflect"
 	"strings"
 
+	"google.golang.org/protobuf/types/known/structpb"
 	"google.golang.org/protobuf/types/known/wrapperspb"
 )
 
@@ -107,9 +108,23 @@ func (c Cfg) unclassified() Exp { return AnyProtected }
 func (c Cfg) secretTop() Exp { return c.Resolve("secret", true) }
 
 type builder struct {
-	cfg    Cfg
-	can    canaries
-	leaves []Leaf
+	cfg     Cfg
+	can     canaries
+	leaves  []Leaf
+	ignored map[reflect.Type]bool
+}
+
+// collectIgnored gathers the pointer types listed in IgnoreTypes.
+func collectIgnored(s *Shape, out map[reflect.Type]bool) {
+	if s == nil {
+		return
+	}
+	if s.K == KPStruct && s.Ign {
+		out[typeOf(s)] = true
+	}
+	for _, k := range s.Kids {
+		collectIgnored(k, out)
+	}
 }
 
 type bctx struct {
@@ -122,9 +137,13 @@ type bctx struct {
 	viaMapSV bool
 	viaIfSl  bool
 	exp      *Exp // fixed expectation (taggable key)
+	ign      bool // below a value whose type is in IgnoreTypes: nothing is filtered
 }
 
 func (b *builder) expFor(c bctx) Exp {
+	if c.ign {
+		return Untouched
+	}
 	if c.exp != nil {
 		return *c.exp
 	}
@@ -206,10 +225,22 @@ func (b *builder) build(s *Shape, c bctx) reflect.Value {
 		v.Set(reflect.ValueOf(baseTime))
 	case KStruct:
 		b.fill(s, v, c)
+	case KPBStruct:
+		fields := map[string]*structpb.Value{}
+		for _, k := range s.Keys {
+			cc := sub(c, ".Fields["+k+"].Kind.StringValue", "ptr>pbstruct")
+			cc.direct = false
+			cc.mode, cc.tag, cc.hasTag, cc.exp = "untagged-map", "", false, nil
+			fields[k] = structpb.NewStringValue(b.leaf(cc, false))
+		}
+		v.Set(reflect.ValueOf(&structpb.Struct{Fields: fields}))
 	case KPStruct:
 		p := reflect.New(t.Elem())
 		cc := sub(c, "", "ptr")
 		cc.direct = false
+		if b.ignored[t] {
+			cc.ign = true
+		}
 		b.fill(s, p.Elem(), cc)
 		v.Set(p)
 	case KIface:
@@ -227,7 +258,11 @@ func (b *builder) build(s *Shape, c bctx) reflect.Value {
 				b.fill(s.Kids[0], sl.Index(i), cc)
 			} else {
 				p := reflect.New(t.Elem().Elem())
-				b.fill(s.Kids[0], p.Elem(), sub(cc, "", "ptr"))
+				pc := sub(cc, "", "ptr")
+				if b.ignored[t.Elem()] {
+					pc.ign = true
+				}
+				b.fill(s.Kids[0], p.Elem(), pc)
 				sl.Index(i).Set(p)
 			}
 		}
@@ -297,13 +332,15 @@ func (b *builder) fill(s *Shape, v reflect.Value, c bctx) {
 
 // Built is a payload value plus what is known about its leaves.
 type Built struct {
-	Value  interface{}
-	Leaves []Leaf
+	Value       interface{}
+	Leaves      []Leaf
+	IgnoreTypes []reflect.Type
 }
 
 // Build materialises the payload. Calling it twice gives non-aliased twins.
 func Build(p Payload, cfg Cfg) Built {
-	b := &builder{cfg: cfg, can: canaries{seed: p.Seed}}
+	b := &builder{cfg: cfg, can: canaries{seed: p.Seed}, ignored: map[reflect.Type]bool{}}
+	collectIgnored(p.Root, b.ignored)
 	root := bctx{path: "", mode: "top-level", direct: false}
 	var val interface{}
 	switch p.Top {
@@ -349,5 +386,9 @@ func Build(p Payload, cfg Cfg) Built {
 	default:
 		panic("payload: top " + p.Top)
 	}
-	return Built{Value: val, Leaves: b.leaves}
+	var its []reflect.Type
+	for t := range b.ignored {
+		its = append(its, t)
+	}
+	return Built{Value: val, Leaves: b.leaves, IgnoreTypes: its}
 }
